@@ -68,7 +68,7 @@ def p_stmt(s, ind):
     k = s[0]
     if k in ("yield", "yieldfrom", "decl", "assign", "inc", "eff", "effv"):
         return [t + p_simple(s)]
-    if k in ("raw", "rawstmts"):
+    if k in ("raw", "rawstmts", "rawif"):
         return [t + l for l in s[1].split("\n")]
     if k == "break":
         return [t + "break"]
@@ -173,7 +173,7 @@ def contains_yield(stmts):
                     found[0] = True
         if s[0] == "switch" and s[1] is not None and s[1][0] in ("yield", "yieldfrom"):
             found[0] = True
-        if s[0] in ("raw", "rawstmts") and ("Yield(" in s[1] or "YieldFrom(" in s[1]):
+        if s[0] in ("raw", "rawstmts", "rawif") and ("Yield(" in s[1] or "YieldFrom(" in s[1]):
             found[0] = True
 
     walk(stmts, f)
@@ -243,6 +243,9 @@ def tags_of(body):
                 rec(s[4], cur + [["for", s, False]])
             elif k == "range":
                 rec(s[5], cur + [["for", s, False]])
+            elif k == "rawif":
+                for child in s[2]:
+                    rec(child, cur + [["if", s, False]])
             elif k == "rawstmts":
                 # a switch / type switch printed as text; its clause bodies are the child lists
                 if stmt_yields(s):
@@ -381,7 +384,7 @@ def twin_body(body, lax=False):
             out.append(("raw", "rt.YieldFromCo(yield_, %s)" % _TW_CALL.sub(lambda m: "T" + m.group(0), e)))
         elif k == "return":
             out.append(("raw", "return"))
-        elif k in ("raw", "rawstmts"):
+        elif k in ("raw", "rawstmts", "rawif"):
             if "Yield" in s[1] or "Iter[" in s[1] or ("MoveNext" in s[1] and not lax):
                 return None
             out.append((k, _TW_CALL.sub(lambda m: "T" + m.group(0), s[1])) + tuple(s[2:]))
@@ -838,7 +841,7 @@ class RichSampler(Sampler):
     later, range statements over literals in every variable form, delegation, and yielded
     expressions in many syntactic forms"""
 
-    EXTRA = {"VAR": 2, "MDEF": 2, "MASSIGN": 1, "SWI": 2, "TSW": 2, "FT": 1, "IIFE": 1, "CLO": 2, "RNG": 3, "YF": 2, "YX": 4}
+    EXTRA = {"VAR": 2, "MDEF": 2, "MASSIGN": 1, "SWI": 2, "TSW": 2, "FT": 1, "IIFE": 1, "CLO": 2, "RNG": 3, "YF": 2, "YX": 4, "IFI": 3, "ELSEBLK": 2}
 
     def __init__(self, rng, weights=None, max_depth=4):
         super().__init__(rng, weights, max_depth)
@@ -864,7 +867,7 @@ class RichSampler(Sampler):
             return super().stmt(budget, ctr, loopvars, in_loop, in_switch, depth, scope)
         kinds = []
         for k, w in self.EXTRA.items():
-            if k in ("SWI", "TSW", "FT", "RNG") and (depth >= self.max_depth or budget[0] < 2):
+            if k in ("SWI", "TSW", "FT", "RNG", "IFI", "ELSEBLK") and (depth >= self.max_depth or budget[0] < 2):
                 continue
             if k == "MASSIGN" and not scope:
                 continue
@@ -895,6 +898,40 @@ class RichSampler(Sampler):
             if x == y:
                 return [("raw", "%s, _ = %s + 1, %s" % (x, x, rng.choice(vals)))]
             return [("raw", "%s, %s = %s, %s + %s" % (x, y, y, x, rng.choice(vals)))]
+        if k == "IFI":
+            # if / else-if with an init statement: define, assignment, call
+            form = rng.choice(["define", "assign", "call", "elseif_assign", "elseif_define"])
+            e = "%s + %d" % (rng.choice(vals), rng.randint(1, 9))
+            if form == "define" or not scope:
+                v = self.fresh("iv")
+                body = sub(in_loop, in_switch, sc=list(scope) + [v])
+                els = sub(in_loop, in_switch, sc=list(scope) + [v]) if rng.random() < 0.5 else None
+                txt = ["if %s := %s; %s&1 == 0 {" % (v, e, v)] + p_stmts([("effv", 8, v)] + body, 1)
+                kids = [[("effv", 8, v)] + body]
+                if els is not None:
+                    txt += ["} else {"] + p_stmts(els, 1)
+                    kids.append(els)
+                return [("rawif", "\n".join(txt + ["}"]), kids)]
+            tgt = rng.choice(scope)
+            body = sub(in_loop, in_switch)
+            if form == "assign":
+                txt = ["if %s = %s; %s&1 == 0 {" % (tgt, e, tgt)] + p_stmts(body, 1) + ["}"]
+                return [("rawif", "\n".join(txt), [body]), ("effv", 8, tgt)]
+            if form == "call":
+                txt = ["if rt.Emit(rt.EFF, %d); %s > %s {" % (ctr.eff(), tgt, rng.choice(vals))] + p_stmts(body, 1) + ["}"]
+                return [("rawif", "\n".join(txt), [body])]
+            b2 = sub(in_loop, in_switch)
+            if form == "elseif_assign":
+                txt = ["if %s {" % ctr.guard()] + p_stmts(body, 1) + ["} else if %s = %s; %s&1 == 0 {" % (tgt, e, tgt)] + p_stmts(b2, 1) + ["}"]
+                return [("rawif", "\n".join(txt), [body, b2]), ("effv", 8, tgt)]
+            v = self.fresh("iv")
+            txt = ["if %s {" % ctr.guard()] + p_stmts(body, 1) + ["} else if %s := %s; %s > %s {" % (v, e, v, rng.choice(vals))] + p_stmts([("effv", 8, v)] + b2, 1) + ["}"]
+            return [("rawif", "\n".join(txt), [body, [("effv", 8, v)] + b2])]
+        if k == "ELSEBLK":
+            # an else block that starts with a yield-free if and goes on with more statements
+            first = ("if", ctr.guard(), [("eff", ctr.eff())], None)
+            rest = sub(in_loop, in_switch)
+            return [("if", ctr.guard(), sub(in_loop, in_switch), [first] + rest + [("eff", ctr.eff())])]
         if k == "SWI":
             v = self.fresh("z")
             e = "(%s + %d) & 3" % (rng.choice(vals), rng.randint(0, 5))
